@@ -1,7 +1,7 @@
 """C08 — DBSCAN / OPTICS: structural clauses of the density-clustering definition."""
 from .core import RuleResult
 from .facts import fn_key, fn_loc, fn_file, walk, strip, peel_refs, pat_bindings, Render, children
-from .sym import Tracer, Term, Cmp, Poly, k, as_term, as_poly, walk_terms, CMP_NEG
+from .sym import Tracer, Term, Cmp, Poly, k, as_term, as_poly, walk_terms, CMP_NEG, guard_relations
 from .taint import parent_map, SORTS
 
 LEVEL = ("Static analysis of linfa-clustering's DBSCAN and OPTICS: (core) every insertion into DBSCAN's search frontier is "
@@ -42,33 +42,29 @@ def rule_core(ctx):
                     ins.append(e)
         if len(ins) < 2:
             res.violate("%s : frontier-insertions" % key, "expected the seed insertion and the expansion insertion into the search queue, found %d (fail closed)" % len(ins), fn_loc(fn))
-        is_count = lambda a: "call:find_neighbors" in a
         is_min = lambda a: "min_points" in a
         for i, e in enumerate(ins):
             inst = "%s : frontier insertion #%d `%s`" % (key, i, e.name)
             res.instance(inst)
             verdict = None
+            # the count that matters is the one of the most recent neighbour query before the insertion
+            prev = [x for x in tr.events if x.kind == "call" and x.name == "find_neighbors" and x.order < e.order]
+            if not prev:
+                res.violate("%s : no-neighbour-query:#%d" % (key, i), "no neighbour query precedes the frontier insertion (fail closed)", fn_loc(fn, e.node["ln"]))
+                continue
+            qk = k(max(prev, key=lambda x: x.order).val)
+            is_count = lambda a: qk in a
             # (a) guarded positively
-            for g in e.guards:
-                for t in walk_terms(g[3]):
-                    if isinstance(t, Cmp):
-                        op = t.relation(is_count, is_min)
-                        if op:
-                            if g[0] == "-":
-                                op = CMP_NEG[op]
-                            verdict = op
+            rels = guard_relations(e, is_count, is_min)
+            if rels:
+                verdict = rels[-1]
             # (b) or dominated by an early `continue`/`break` taken when count < min_points, in the same iteration
             if verdict is None:
                 for x in tr.events:
                     if x.kind in ("continue", "break", "ret") and x.order < e.order and x.loops and e.loops and x.loops[0][1] is e.loops[0][1] and len(x.loops) <= len(e.loops):
-                        for g in x.guards:
-                            for t in walk_terms(g[3]):
-                                if isinstance(t, Cmp):
-                                    op = t.relation(is_count, is_min)
-                                    if op:
-                                        if g[0] == "-":
-                                            op = CMP_NEG[op]
-                                        verdict = CMP_NEG[op]   # we are past the exit: the negation holds
+                        rels = guard_relations(x, is_count, is_min)
+                        if rels:
+                            verdict = CMP_NEG[rels[-1]]   # we are past the exit: the negation holds
             if verdict == ">=":
                 res.ok()
                 res.sample({"site": inst, "condition": "neighbour count >= min_points"})
